@@ -1,12 +1,14 @@
-"""C18 — order_by / limit: property meta and bounded contracts."""
-META = {
-  'level': 'proof',
-  'explanation': 'Clause construction (LimitOf, LimitClause, OrderBy, OrderByClause) and non-inlining '
-                 '(OkInjection) are postconditions proved from the current source for all annotation '
-                 'maps and all K; the row-level effect on SQLite is a bounded contract on compile+execute.',
-  'assumptions': ['SQL ORDER BY / LIMIT semantics of SQLite'],
-}
+"""C18 — order_by / limit: bounded row-level contracts and pipeline monitors."""
+import os, sys
+sys.path.insert(0, os.path.dirname(os.path.abspath(__file__)))
+import _std
+
+META = {'assumptions': ['SQL ORDER BY / LIMIT semantics of SQLite']}
 
 
 def run(tier, seed):
-  return []
+  return _std.std_run('C18', tier, seed)
+
+
+def replay(spec):
+  return _std.std_replay('C18', spec)
